@@ -864,6 +864,15 @@ def decorator_slots(rep, prog, interps):
                 key = a
             elif isinstance(a, _ast.Call) and isinstance(a.func, _ast.Attribute) and a.func.attr in ("get", "setdefault", "pop") and a.args and is_hash(a.args[0]):
                 key = a
+            confirms = any((isinstance(x, _ast.Call) and (dotted_of(x.func) or "").split(".")[-1] in ("array_equal", "array_equiv", "allclose")) or
+                           (isinstance(x, _ast.Compare) and any(isinstance(o, _ast.Eq) for o in x.ops) and not any(isinstance(y, _ast.Constant) for y in [x.left] + x.comparators))
+                           for x in _ast.walk(f.node))
+            if key is not None and confirms:
+                # a hit under hash / id is confirmed against what was stored (the argument itself, a copy of its contents): whether that makes the
+                # table sound is not decided here
+                rep.unk("DECOR.cache-key", {"file": f.module.relpath, "line": key.lineno, "function": q, "construct": _ast.unparse(key)[:100]},
+                        "results are remembered under %s(argument) and a hit is compared by value with the stored argument before it is used (an identity test would not do: an array changed in place keeps its identity): whether the table is sound is not decided" % kind.get(0))
+                break
             if key is not None:
                 rep.bad("DECOR.cache-key", {"file": f.module.relpath, "line": key.lineno, "function": q, "construct": _ast.unparse(key)[:100]},
                         "results are remembered under hash(arguments): different arguments with equal hashes (-1 and -2; 1, 1.0 and True) get each other's result"
